@@ -420,6 +420,55 @@ theorem fsC_idem : RealIdem fsC := by
   · decide
   · rfl
 
+/-! ### histories of calls on one converter object -/
+
+theorem Conv.run_append (fs : FS) (c : Conv) (a b : List ConvOp) :
+    (Conv.run fs c (a ++ b)).1 = (Conv.run fs (Conv.run fs c a).1 b).1 := by
+  induction a generalizing c with
+  | nil => rfl
+  | cons op a ih => simp only [List.cons_append, Conv.run]; exact ih _
+
+theorem Conv.run_read_state (fs : FS) (c : Conv) (fn : Str) : (c.step fs (.read fn)).1 = c := rfl
+
+/-- reads do not change the object: after a history, the configuration is the one of the last
+    `set_tex_input_directory` call (or the initial one) -/
+def lastConfig : Conv → List ConvOp → Conv
+  | c, [] => c
+  | _, .setDir d s :: ops => lastConfig { dir := d, strict := s } ops
+  | c, .read _ :: ops => lastConfig c ops
+
+theorem Conv.run_state (fs : FS) (c : Conv) (ops : List ConvOp) : (Conv.run fs c ops).1 = lastConfig c ops := by
+  induction ops generalizing c with
+  | nil => rfl
+  | cons op ops ih =>
+    cases op with
+    | setDir d s => simp only [Conv.run, Conv.step, lastConfig]; exact ih _
+    | read fn => simp only [Conv.run, Conv.step, lastConfig]; exact ih _
+
+/-- **C15 (history independence).**  Whatever was set and read before on the same converter object (other directories,
+    non-strict mode, successful reads of the same name), a read returns what a fresh object with the current
+    configuration returns. -/
+theorem C15_session (fs : FS) (c : Conv) (ops : List ConvOp) (fn : Str) :
+    ((Conv.run fs c ops).1.step fs (.read fn)).2 =
+      some (readInputFile fs (lastConfig c ops).dir (lastConfig c ops).strict fn) := by
+  rw [Conv.run_state]; rfl
+
+/-- **C15 (guard over histories).**  After any history that ends by confining the object strictly to `d`, a non-empty
+    answer is the content of a file whose real path is inside `d` — nothing read earlier can come back. -/
+theorem C15_session_guard (fs : FS) (c : Conv) (ops : List ConvOp) (d : Option Str) (fn : Str) (r : InRes)
+    (h : ((Conv.run fs c (ops ++ [.setDir d true])).1.step fs (.read fn)).2 = some r) (hne : r.toPy ≠ []) :
+    ∃ d' f, d = some d' ∧ fs.read f = some r.toPy ∧ Inside (fs.realpath d') (fs.realpath f) := by
+  rw [Conv.run_append] at h
+  simp only [Conv.run, Conv.step, Option.some.injEq] at h
+  subst h
+  exact C15_guard_py fs d fn hne
+
+-- C15_session / C15_session_guard: a history that first reads the sibling's file successfully (directory base2),
+-- then confines the object strictly to base and asks for the same name again: nothing comes back
+example : (Conv.run fsA {} [.setDir (some "/r/base2".toList) true, .read "s.tex".toList,
+      .setDir (some "/r/base".toList) true, .read "s.tex".toList]).2 =
+    [none, some (.content "SECRET".toList), none, some .missing] := by decide
+
 -- C15_guard / C15_guard_inside / C15_guard_py: content is returned, hypotheses hold
 example : readLatexFile fsC "/r/base".toList true "sub/up/a".toList = .content "AAA".toList := by decide
 example : Plain (fsC.realpath "/r/base".toList) := by decide
